@@ -51,9 +51,12 @@ type worker[T any, JobType iJob[T]] struct {
 	tickers         []*time.Ticker
 	tickerDones     []chan struct{}
 	mx              sync.RWMutex
-	ctx             context.Context
-	cancel          context.CancelFunc
-	Configs         configs
+	// lifecycle serialises the calls that read the status, act on it and store a new one (Pause, Resume,
+	// Stop, Restart and the start of a run). It is never held while waiting for jobs to finish.
+	lifecycle sync.Mutex
+	ctx       context.Context
+	cancel    context.CancelFunc
+	Configs   configs
 }
 
 // Worker represents a worker that processes Jobs.
@@ -549,6 +552,14 @@ func (w *worker[T, JobType]) stopAndRemoveAllWorkers() {
 }
 
 func (w *worker[T, JobType]) start() error {
+	w.lifecycle.Lock()
+	defer w.lifecycle.Unlock()
+
+	return w.startLocked()
+}
+
+// startLocked starts a run; the caller holds w.lifecycle
+func (w *worker[T, JobType]) startLocked() error {
 	if w.IsRunning() {
 		return ErrRunningWorker
 	}
@@ -629,6 +640,9 @@ func (w *worker[T, JobType]) NumIdleWorkers() int {
 }
 
 func (w *worker[T, JobType]) Pause() error {
+	w.lifecycle.Lock()
+	defer w.lifecycle.Unlock()
+
 	switch s := w.status.Load(); s {
 	case running:
 		w.status.Store(paused)
@@ -642,32 +656,46 @@ func (w *worker[T, JobType]) Pause() error {
 }
 
 func (w *worker[T, JobType]) Stop() error {
-	switch s := w.status.Load(); s {
-	case stopped:
-		return nil
-	case running:
-		w.PauseAndWait()
-	case paused:
+	for {
+		w.lifecycle.Lock()
+
+		switch w.status.Load() {
+		case stopped:
+			w.lifecycle.Unlock()
+			return nil
+		case running:
+			w.status.Store(paused)
+		case paused:
+		default:
+			w.lifecycle.Unlock()
+			return ErrNotRunningWorker
+		}
+
+		// The worker is paused. Once nothing is in flight (a dispatch in progress holds a slot) nothing
+		// can start any more and the run is torn down; a concurrent Resume, Pause or Restart waits for that.
+		if w.curProcessing.Load() == 0 {
+			w.mx.RLock()
+			cancel := w.cancel
+			w.mx.RUnlock()
+
+			w.stopTickers()
+			w.closeChannels()
+			w.stopAndRemoveAllWorkers()
+			w.status.Store(stopped)
+			w.lifecycle.Unlock()
+
+			if cancel != nil {
+				cancel()
+			}
+
+			return nil
+		}
+
+		// wait for the jobs in flight without holding the lock, then look again:
+		// somebody may have resumed or stopped the worker meanwhile
+		w.lifecycle.Unlock()
 		w.WaitUntilFinished()
-	default:
-		return ErrNotRunningWorker
 	}
-
-	w.mx.RLock()
-	cancel := w.cancel
-	w.mx.RUnlock()
-
-	if cancel != nil {
-		defer cancel()
-	}
-	defer w.status.Store(stopped)
-
-	w.stopTickers()
-	w.closeChannels()
-
-	w.stopAndRemoveAllWorkers()
-
-	return nil
 }
 
 func (w *worker[T, JobType]) NumPending() int {
@@ -675,46 +703,49 @@ func (w *worker[T, JobType]) NumPending() int {
 }
 
 func (w *worker[T, JobType]) Restart() error {
-	// If worker is running, pause and wait for ongoing processes
-	switch w.status.Load() {
-	case running:
-		if err := w.PauseAndWait(); err != nil {
-			return err
+	for {
+		w.lifecycle.Lock()
+
+		switch w.status.Load() {
+		case running:
+			// pause, ongoing processes are waited for below
+			w.status.Store(paused)
+		case paused, stopped, initiated:
+		default:
+			w.lifecycle.Unlock()
+			return ErrNotRunningWorker
 		}
+
+		// a paused worker still has jobs in flight: wait for them without holding the lock, then look again
+		if w.curProcessing.Load() != 0 {
+			w.lifecycle.Unlock()
+			w.WaitUntilFinished()
+			continue
+		}
+
 		// to remove idle workers if any
 		w.stopAndRemoveAllWorkers()
-	case paused:
-		w.WaitUntilFinished()
-		// to remove idle workers if any
-		w.stopAndRemoveAllWorkers()
-	case stopped, initiated:
-		// proceed to restart
-	default:
-		return ErrNotRunningWorker
-	}
+		// the idle worker remover of the previous run ends with that run
+		w.stopTickers()
+		w.closeChannels()
 
-	// the idle worker remover of the previous run ends with that run
-	w.stopTickers()
-	w.closeChannels()
+		w.mx.Lock()
+		w.eventLoopSignal = make(chan struct{}, eventLoopSignalCap)
+		w.errorChan = make(chan error, errorChanCap)
 
-	w.mx.Lock()
-	w.eventLoopSignal = make(chan struct{}, eventLoopSignalCap)
-	w.errorChan = make(chan error, errorChanCap)
+		if w.ctx != nil {
+			w.cancel()
+			w.ctx, w.cancel = context.WithCancel(w.Configs.ctx)
+		}
+		w.mx.Unlock()
 
-	if w.ctx != nil {
-		w.cancel()
-		w.ctx, w.cancel = context.WithCancel(w.Configs.ctx)
-	}
-	w.mx.Unlock()
+		// Reset status to initiated to allow the start to proceed
+		w.status.Store(initiated)
+		err := w.startLocked()
+		w.lifecycle.Unlock()
 
-	// Reset status to initiated to allow start() to proceed
-	w.status.Store(initiated)
-
-	if err := w.start(); err != nil {
 		return err
 	}
-
-	return nil
 }
 
 func (w *worker[T, JobType]) IsPaused() bool {
@@ -749,15 +780,15 @@ func (w *worker[T, JobType]) NumProcessing() int {
 }
 
 func (w *worker[T, JobType]) Resume() error {
-	if w.IsStopped() {
+	w.lifecycle.Lock()
+	defer w.lifecycle.Unlock()
+
+	switch w.status.Load() {
+	case stopped:
 		return ErrNotRunningWorker
-	}
-
-	if w.status.Load() == initiated {
-		return w.start()
-	}
-
-	if w.IsRunning() {
+	case initiated:
+		return w.startLocked()
+	case running:
 		return ErrRunningWorker
 	}
 
